@@ -15,7 +15,7 @@ RULE = ("every history up to the depth bound over: assign through the "
         "distinct = distinct (model state, event)")
 EXPLANATION = ("direct exploration; reference model = two dicts + a 'link "
                "broken' bit per prototyped attribute")
-BOUNDS = {"quick": "depth 3 with dedup over ~75 events (five-attribute "
+BOUNDS = {"quick": "seven kinds; depth 3 with dedup over ~75 events (six-attribute "
                    "classes), depth 5 (two-attribute prototype class, chain)",
           "thorough": "depth 4 / 6"}
 ASSUMPTIONS = ["a notification on delegate *swap* is neither required nor "
